@@ -1,8 +1,291 @@
 package stake
 
 import (
+	"fmt"
+	"math/rand"
+
+	"0chain.net/chaincore/transaction"
+	"0chain.net/smartcontract/minersc"
+	"0chain.net/smartcontract/stakepool/spenum"
+	"0chain.net/smartcontract/storagesc"
+
+	"github.com/0chain/common/core/currency"
+	"github.com/0chain/common/core/util"
+
 	"verif/harness/common"
 	"verif/harness/rec"
+	"verif/harness/world"
 )
 
-func runC23(a common.Args) { rec.Fatal("C23 not built yet") }
+// ---------------------------------------------------------------------------------------------
+// C23: killing or shutting down a provider disables exactly that provider.
+//
+// Every trace forks from the base block, stakes a few delegates on two or three providers with real lock
+// transactions, and then runs kill_* / shutdown_* transactions by the contract owner, the provider's
+// delegate wallet, the provider itself and a stranger (first, repeated and late attempts), interleaved with
+// reward payments to the addressed and to other providers.  Every step is followed by a `Kill` event with
+// ALL stake-pool nodes of the state (key set and contents, found by decoding every value node of the MPT)
+// and the provider records of all providers, before and after.
+
+type killer struct {
+	w  *world.World
+	e  *env
+	rc *rec.Recorder
+	r  *rand.Rand
+	// per trace: providers shut down successfully by somebody whose id is not the provider's
+	foreignShut map[string]bool
+}
+
+type fullProj struct {
+	keys                []string
+	bal, rew, spr, dead []pair
+	recs                []pair
+	ownKeys             map[string][]string // node key -> "key/delegate" entries
+}
+
+func (e *env) full(s util.MerklePatriciaTrieI) fullProj {
+	out := fullProj{ownKeys: map[string][]string{}}
+	for _, n := range e.stakeNodes(s) {
+		out.keys = append(out.keys, n.Key)
+		b, r := e.poolPairs(n.SP)
+		for i := range b {
+			k := n.Key + "/" + b[i].A
+			out.bal = append(out.bal, pair{k, b[i].D})
+			out.rew = append(out.rew, pair{k, r[i].D})
+			out.ownKeys[n.Key] = append(out.ownKeys[n.Key], k)
+		}
+		out.spr = append(out.spr, pair{n.Key, capU(uint64(n.SP.Reward))})
+		d := int64(0)
+		if n.SP.HasBeenKilled {
+			d = 1
+		}
+		out.dead = append(out.dead, pair{n.Key, d})
+	}
+	for _, p := range e.provs {
+		if p.Type == spenum.Authorizer {
+			continue
+		}
+		r := e.provRecord(s, p)
+		code := int64(0)
+		switch {
+		case !r.Exists:
+		case r.Killed && r.Shut:
+			code = 4
+		case r.Shut:
+			code = 3
+		case r.Killed:
+			code = 2
+		default:
+			code = 1
+		}
+		out.recs = append(out.recs, pair{p.Name, code})
+	}
+	if out.keys == nil {
+		out.keys = []string{}
+	}
+	out.bal, out.rew, out.spr, out.dead, out.recs = orEmpty(out.bal), orEmpty(out.rew), orEmpty(out.spr), orEmpty(out.dead), orEmpty(out.recs)
+	return out
+}
+
+func runC23(a common.Args) {
+	e := newEnv(nil)
+	defer e.w.Close()
+	rc := rec.New(a.Out)
+	defer rc.Close()
+	g := &killer{w: e.w, e: e, rc: rc}
+	id := 0
+	for i := 0; i < a.N; i++ {
+		id++
+		if a.Only != 0 && a.Only != id {
+			rc.TraceID = id
+			continue
+		}
+		g.r = common.TraceRand(a.Seed, id)
+		g.history(a, id)
+	}
+}
+
+var killFn = map[spenum.Provider]string{spenum.Miner: "kill_miner", spenum.Sharder: "kill_sharder", spenum.Blobber: "kill_blobber", spenum.Validator: "kill_validator"}
+var shutFn = map[spenum.Provider]string{spenum.Blobber: "shutdown_blobber", spenum.Validator: "shutdown_validator"}
+
+func (g *killer) killable() []*prov {
+	var out []*prov
+	for _, p := range g.e.provs {
+		if p.Type != spenum.Authorizer { // the bridge contract has no kill / shutdown function
+			out = append(out, p)
+		}
+	}
+	return out
+}
+
+func (g *killer) history(a common.Args, id int) {
+	w, e := g.w, g.e
+	g.foreignShut = map[string]bool{}
+	w.BeginBlock(e.base)
+	g.rc.TraceID = id - 1
+	g.rc.Reset(rec.M{"family": "stake", "prop": "C23", "id": id, "seed": a.Seed, "steps": a.Steps},
+		rec.M{"nonces": w.InitNonces(w.CurState)})
+	ps := g.killable()
+	// the target (every provider type gets its turn; shutdown exists for blobbers and validators only) and
+	// one or two bystanders whose pools must not move
+	target := ps[(id+g.r.Intn(2)*3)%len(ps)]
+	focus := []*prov{target}
+	for _, i := range g.r.Perm(len(ps)) {
+		if ps[i] != target && len(focus) < 3 {
+			focus = append(focus, ps[i])
+		}
+	}
+	// stakes (real lock transactions); sometimes the target has no delegate at all
+	stakers := []*world.Key{w.Clients[0], w.Clients[1], w.Clients[2]}
+	pre := e.full(w.CurState)
+	for _, p := range focus {
+		n := g.r.Intn(3)
+		if p != target && n == 0 {
+			n = 1
+		}
+		for i := 0; i < n && i < p.MaxDel; i++ {
+			v := []uint64{100, 101, 333, 1000, 1001, 7777, 99999}[g.r.Intn(7)]
+			w.DoRec(g.rc, world.TxnSpec{From: stakers[i], To: world.Contracts[p.SC], Type: transaction.TxnTypeSmartContract, Fn: fnLock[p.SC],
+				Input: map[string]interface{}{"provider_id": p.Key.ID, "provider_type": int(p.Type)}, Value: v}, rec.M{"src": "stake"})
+		}
+		if g.r.Intn(3) == 0 {
+			g.pay(p, uint64(10+g.r.Intn(500)))
+		}
+	}
+	g.emit("setup", "", target, w.Owner, "owner", "ok", 0, pre, e.full(w.CurState))
+
+	for i := 0; i < a.Steps; i++ {
+		if g.r.Intn(8) == 0 {
+			w.EndBlock()
+			w.BeginBlock()
+		}
+		p := target
+		if g.r.Intn(5) == 0 {
+			p = focus[g.r.Intn(len(focus))]
+		}
+		role := []string{"owner", "owner", "wallet", "self", "stranger", "otherwallet"}[g.r.Intn(6)]
+		var who *world.Key
+		switch role {
+		case "owner":
+			who = w.Owner
+		case "wallet":
+			who = p.Wallet
+		case "self":
+			who = p.Key
+		case "stranger":
+			who = w.ByName["x1"]
+		default:
+			q := focus[(indexOf(focus, p)+1)%len(focus)]
+			who = q.Wallet
+		}
+		switch x := g.r.Intn(100); {
+		case x < 35:
+			g.txn("kill", killFn[p.Type], p, who, role)
+		case x < 70:
+			if fn, ok := shutFn[p.Type]; ok {
+				g.txn("shutdown", fn, p, who, role)
+			} else {
+				g.txn("kill", killFn[p.Type], p, who, role)
+			}
+		default:
+			g.reward(p, []uint64{1, 3, 10, 99, 1000}[g.r.Intn(5)])
+		}
+	}
+	w.EndBlock()
+}
+
+func indexOf(ps []*prov, p *prov) int {
+	for i := range ps {
+		if ps[i] == p {
+			return i
+		}
+	}
+	return 0
+}
+
+func (g *killer) txn(op, fn string, p *prov, who *world.Key, role string) {
+	w, e := g.w, g.e
+	pre := e.full(w.CurState)
+	res := w.DoRec(g.rc, world.TxnSpec{From: who, To: world.Contracts[p.SC], Type: transaction.TxnTypeSmartContract, Fn: fn,
+		Input: map[string]interface{}{"provider_id": p.Key.ID}}, rec.M{"src": "stake"})
+	post := e.full(w.CurState)
+	g.emit(op, fn, p, who, role, res.Class, 0, pre, post)
+}
+
+// pay = one reward payment with the contract's own sequence, merged into the block state
+func (g *killer) pay(p *prov, value uint64) (class string) {
+	sc, commit := g.e.sctx(g.w.Owner, world.Contracts[p.SC])
+	var err error
+	class = "ok"
+	func() {
+		defer func() {
+			if r := recover(); r != nil {
+				err = fmt.Errorf("panic: %v", r)
+				class = "panic"
+			}
+		}()
+		if p.SC == "storagesc" {
+			err = storagesc.VerifStakeReward(p.Type, p.Key.ID, currency.Coin(value), sc)
+		} else {
+			err = minersc.VerifStakeReward(p.Type, p.Key.ID, currency.Coin(value), sc)
+		}
+	}()
+	if err == nil {
+		commit()
+	} else if class == "ok" {
+		class = "chargeable"
+	}
+	return class
+}
+
+func (g *killer) reward(p *prov, value uint64) {
+	pre := g.e.full(g.w.CurState)
+	class := g.pay(p, value)
+	g.emit("reward", "", p, g.w.Owner, "owner", class, value, pre, g.e.full(g.w.CurState))
+}
+
+func (g *killer) emit(op, fn string, p *prov, who *world.Key, role, class string, value uint64, pre, post fullProj) {
+	nk := spKey(p)
+	auth := (op == "kill" && role == "owner") || (op == "shutdown" && (role == "owner" || role == "wallet"))
+	// the configured slash fractions: storagesc kill = stakepool.kill_slash (0.5), shutdown = half of it,
+	// minersc kill does not slash (kill.go)
+	num, den := int64(0), int64(1)
+	if p.SC == "storagesc" {
+		if op == "kill" {
+			num, den = 1, 2
+		} else if op == "shutdown" {
+			num, den = 1, 4
+		}
+	}
+	own := map[string]bool{}
+	var ownKeys []string
+	for _, k := range append(append([]string{}, pre.ownKeys[nk]...), post.ownKeys[nk]...) {
+		if !own[k] {
+			own[k] = true
+			ownKeys = append(ownKeys, k)
+		}
+	}
+	if ownKeys == nil {
+		ownKeys = []string{}
+	}
+	after := g.foreignShut[p.Name]
+	foreign := op == "shutdown" && class == "ok" && who.ID != p.Key.ID && !after
+	recPre, _ := pairOf(pre.recs, p.Name)
+	if foreign && recPre == 1 {
+		g.foreignShut[p.Name] = true
+	} else {
+		foreign = false
+	}
+	m := rec.M{
+		"ev": "Kill", "op": op, "fn": fn, "sc": p.SC, "prov": p.Name, "ptype": p.Type.String(), "caller": g.w.Name(who.ID), "role": role,
+		"ok": class == "ok", "class": class, "auth": auth, "node_key": nk, "slash_num": num, "slash_den": den, "value": capU(value),
+		"keys_pre": pre.keys, "keys_post": post.keys, "bal_pre": pre.bal, "bal_post": post.bal, "rew_pre": pre.rew, "rew_post": post.rew,
+		"spr_pre": pre.spr, "spr_post": post.spr, "dead_pre": pre.dead, "dead_post": post.dead, "rec_pre": pre.recs, "rec_post": post.recs,
+		"own_keys": ownKeys, "foreign_shutdown": foreign, "after_foreign_shutdown": after, "panic": class == "panic",
+	}
+	outcome := class
+	if op == "kill" || op == "shutdown" {
+		outcome = fmt.Sprintf("%s/%s/dead=%v", role, class, recPre != 1)
+	}
+	g.rc.Emit(m, op+"/"+p.Type.String()+"/"+outcome, class == "ok" && op != "setup")
+}
